@@ -37,6 +37,8 @@ pub enum HOp {
     SlowRpc(usize, usize),
     /// let every busy handler finish
     Release,
+    /// a sends b a request whose application handler panics (a bug in b's application)
+    PanicRpc(usize, usize),
 }
 
 pub fn all_ops() -> Vec<HOp> {
@@ -73,6 +75,17 @@ pub fn all_ops() -> Vec<HOp> {
     v
 }
 
+/// the alphabet of C09: plus requests whose application handler panics
+pub fn all_ops_for(which: &str) -> Vec<HOp> {
+    let mut v = all_ops();
+    if which == "C09" {
+        for (i, j) in [(0, 1), (1, 2)] {
+            v.push(HOp::PanicRpc(i, j));
+        }
+    }
+    v
+}
+
 /// the extended alphabet: plus slow RPCs (services limited to one request at a time)
 pub fn all_ops_busy() -> Vec<HOp> {
     let mut v = all_ops();
@@ -93,6 +106,7 @@ pub fn op_json(o: &HOp) -> Value {
         HOp::CutDisconnect(i, j) => json!(["cut_disconnect", i, j]),
         HOp::SlowRpc(i, j) => json!(["slow_rpc", i, j]),
         HOp::Release => json!(["release", 0, 0]),
+        HOp::PanicRpc(i, j) => json!(["panic_rpc", i, j]),
     }
 }
 
@@ -107,6 +121,7 @@ pub fn parse_op(v: &Value) -> HOp {
         "cut_disconnect" => HOp::CutDisconnect(i, j),
         "slow_rpc" => HOp::SlowRpc(i, j),
         "release" => HOp::Release,
+        "panic_rpc" => HOp::PanicRpc(i, j),
         _ => HOp::Restart(i),
     }
 }
@@ -189,6 +204,12 @@ async fn scenario(sim: Arc<Sim>, unit: Value, which: &'static str) -> Obs {
         ($k:expr, $($arg:tt)*) => { o.violations.push(($k.to_string(), format!($($arg)*))) };
     }
 
+    // Links that went through a short outage earlier in the history: the delayed acknowledgements
+    // inflate QUIC's RTT estimate, and the idle period is max(idle timeout, 3 x PTO)
+    // (RFC 9000 section 10.1), so a later loss on such a link may be noticed up to ~3 s later.
+    let mut disturbed: BTreeSet<(usize, usize)> = BTreeSet::new();
+    let link = |a: usize, b: usize| (a.min(b), a.max(b));
+    const PTO_ALLOWANCE_MS: u64 = 3_000;
     for (step, op) in ops.iter().enumerate() {
         // a subscription on every node before every step
         for (i, n) in nets.iter().enumerate() {
@@ -251,9 +272,20 @@ async fn scenario(sim: Arc<Sim>, unit: Value, which: &'static str) -> Obs {
             }
             HOp::Cut(i, j, long) => {
                 sim.fabric.set_link_both(node_idx[i], node_idx[j], false);
-                tokio::time::sleep(ms(if long { LOSS_MS } else { 1_000 })).await;
+                let allowance = if disturbed.contains(&link(i, j)) { PTO_ALLOWANCE_MS } else { 0 };
+                tokio::time::sleep(ms(if long { LOSS_MS + allowance } else { 1_000 })).await;
+                if !long {
+                    disturbed.insert(link(i, j));
+                }
                 if long && (nets[i].peers().contains(&ids[j]) || nets[j].peers().contains(&ids[i])) {
                     viol!("loss-not-reported", "step {step}: the link n{i}<->n{j} has been dead for more than the idle timeout but n{i} lists n{j}: {}, n{j} lists n{i}: {}", nets[i].peers().contains(&ids[j]), nets[j].peers().contains(&ids[i]));
+                    // for the replay log: how much later is the loss noticed (link still dead)?
+                    let mut extra = 0u64;
+                    while extra < 30_000 && (nets[i].peers().contains(&ids[j]) || nets[j].peers().contains(&ids[i])) {
+                        tokio::time::sleep(ms(250)).await;
+                        extra += 250;
+                    }
+                    o.log.push(format!("step {step}: (diagnosis) the loss was noticed by both sides {extra} ms after the bound of {LOSS_MS} ms"));
                 }
                 sim.fabric.set_link_both(node_idx[i], node_idx[j], true);
                 o.shape.push(if long { 'C' } else { 'c' });
@@ -263,7 +295,7 @@ async fn scenario(sim: Arc<Sim>, unit: Value, which: &'static str) -> Obs {
                 sim.fabric.set_link(node_idx[i], node_idx[j], false);
                 // n{j} hears nothing and gives up after the idle timeout (silently); n{i} still hears
                 // n{j} until then, so it may take one more idle timeout to report the loss
-                tokio::time::sleep(ms(2 * LOSS_MS)).await;
+                tokio::time::sleep(ms(2 * LOSS_MS + if disturbed.contains(&link(i, j)) { 2 * PTO_ALLOWANCE_MS } else { 0 })).await;
                 if nets[i].peers().contains(&ids[j]) || nets[j].peers().contains(&ids[i]) {
                     viol!("loss-not-reported", "step {step}: n{i}->n{j} has been black-holed for more than the idle timeout but n{i} lists n{j}: {}, n{j} lists n{i}: {}", nets[i].peers().contains(&ids[j]), nets[j].peers().contains(&ids[i]));
                 }
@@ -275,7 +307,7 @@ async fn scenario(sim: Arc<Sim>, unit: Value, which: &'static str) -> Obs {
                 sim.fabric.set_link_both(node_idx[i], node_idx[j], false);
                 let was = nets[j].peers().contains(&ids[i]);
                 let _ = nets[i].disconnect(ids[j]);
-                tokio::time::sleep(ms(LOSS_MS)).await;
+                tokio::time::sleep(ms(LOSS_MS + if disturbed.contains(&link(i, j)) { PTO_ALLOWANCE_MS } else { 0 })).await;
                 if nets[j].peers().contains(&ids[i]) {
                     viol!("loss-not-reported", "step {step}: n{i} disconnected n{j} during a partition; more than the idle timeout later n{j} still lists n{i}");
                 }
@@ -292,6 +324,15 @@ async fn scenario(sim: Arc<Sim>, unit: Value, which: &'static str) -> Obs {
                 tokio::time::sleep(ms(30)).await;
                 o.shape.push('s');
                 o.log.push(format!("step {step}: n{i} starts a slow rpc to n{j}"));
+            }
+            HOp::PanicRpc(i, j) => {
+                let connected = nets[i].peers().contains(&ids[j]);
+                let r = tokio::time::timeout(ms(2_000), nets[i].rpc(ids[j], Sim::request("boom").with_header("panic", "1"))).await;
+                if matches!(r, Ok(Ok(_))) {
+                    viol!("setup", "step {step}: the panicking handler answered");
+                }
+                o.shape.push(if connected { 'P' } else { 'p' });
+                o.log.push(format!("step {step}: n{i} sends n{j} a request whose handler panics (connected: {connected})"));
             }
             HOp::Release => {
                 sim.svc.release("slow");
@@ -432,7 +473,7 @@ fn judge(o: &Obs) -> Judged {
 }
 
 pub fn units(tier: Tier, which: &str) -> Vec<Value> {
-    let ops = all_ops();
+    let ops = all_ops_for(which);
     let mut u = vec![];
     let settle = if which == "C09" { "long" } else { "short" };
     // every history of length 1 and 2; length 3 in full for thorough (split by first two ops),
@@ -480,7 +521,7 @@ pub fn run_unit(_tier: Tier, unit: &Value, out: &mut UnitResult, which: &'static
     for _ in 0..expand {
         let mut next = vec![];
         for s in &seqs {
-            for op in if busy { all_ops_busy() } else { all_ops() } {
+            for op in if busy { all_ops_busy() } else { all_ops_for(which) } {
                 let mut n = s.clone();
                 n.push(op);
                 next.push(n);
@@ -489,9 +530,8 @@ pub fn run_unit(_tier: Tier, unit: &Value, out: &mut UnitResult, which: &'static
         seqs = next;
     }
     for s in seqs {
-        if busy && !s.iter().any(|o| matches!(o, HOp::SlowRpc(..))) {
-            continue; // identical to the plain variant
-        }
+        // (histories without a slow RPC are kept too: this variant starts from a connected triangle,
+        // a non-initial state, which the plain variant only reaches after three dials)
         let mut u = unit.clone();
         u["ops"] = json!(s.iter().map(op_json).collect::<Vec<_>>());
         u["expand"] = json!(0);
